@@ -553,6 +553,9 @@ def main(argv):
                 undecided.append('kani did not complete: ' + extra['kani'].get('tail', '')[-600:])
         except AnchorLost as e:
             undecided.append('K1: anchor lost: %s' % e)
+    if index['properties'][prop].get('bounded_check'):
+        import bounded
+        extra['bounded'] = bounded.run(REPO, [prop])
     if tier == 'thorough':
         extra['thorough'] = {
             'reproofs': dict((r.name, r.variants) for r in runs),
